@@ -108,7 +108,11 @@ class Regex:
         self.notes: list[str] = []
         self.groups: dict[int, RNode] = {}
         try:
-            tree = sre_parse.parse(rewrite_regex_module_classes(pattern), flags)
+            import warnings
+
+            with warnings.catch_warnings():
+                warnings.simplefilter("ignore")
+                tree = sre_parse.parse(rewrite_regex_module_classes(pattern), flags)
         except Exception as e:  # noqa: BLE001
             raise ValueError(f"cannot parse regex {pattern!r}: {e}") from e
         self.flags = flags | tree.state.flags
